@@ -538,11 +538,11 @@ func init() {
 		Run: func(p *Prog, c *Ctx) {
 			fn := p.MustFn("(*vuego.template).layout")
 			var render, load ssa.CallInstruction
+			for _, site := range p.callsToRole(fn, "(*vuego.template).renderWithoutLayout") {
+				render = site
+			}
 			for _, site := range callsIn(fn) {
-				switch calleeName(site.Common()) {
-				case "(*vuego.template).renderWithoutLayout":
-					render = site
-				case "(*vuego.template).Load":
+				if calleeName(site.Common()) == "(*vuego.template).Load" {
 					load = site
 				}
 			}
@@ -642,7 +642,6 @@ func init() {
 		},
 	})
 }
-
 
 func init() {
 	register(&Rule{
@@ -820,10 +819,27 @@ func init() {
 				}
 				return false
 			}
-			hasMarker := func(v ssa.Value) bool {
+			var hasMarker func(v ssa.Value, d int) bool
+			hasMarker = func(v ssa.Value, d int) bool {
 				for _, o := range p.origins(v, OriginOpts{}) {
 					if s, ok := constString(o); ok && strings.Contains(strings.ToLower(s), "</html>") {
 						return true
+					}
+					// a package-level variable initialised with the marker
+					if ld, ok := o.(*ssa.UnOp); ok && d < 2 {
+						if g, ok := ld.X.(*ssa.Global); ok {
+							if init := g.Pkg.Func("init"); init != nil {
+								found := false
+								eachInstr(init, func(in ssa.Instruction) {
+									if st, ok := in.(*ssa.Store); ok && st.Addr == ssa.Value(g) && hasMarker(st.Val, d+1) {
+										found = true
+									}
+								})
+								if found {
+									return true
+								}
+							}
+						}
 					}
 				}
 				return false
@@ -833,7 +849,7 @@ func init() {
 				if cl, ok := cnd.(*ssa.Call); ok && want {
 					switch calleeName(&cl.Call) {
 					case "bytes.Contains", "strings.Contains":
-						return fromParam(cl.Call.Args[0]) && hasMarker(cl.Call.Args[1])
+						return fromParam(cl.Call.Args[0]) && hasMarker(cl.Call.Args[1], 0)
 					}
 				}
 				if op, x, y, ok := relationOnEdge(cnd, want); ok {
@@ -842,7 +858,7 @@ func init() {
 					if isCall && isK {
 						switch calleeName(&cl.Call) {
 						case "bytes.Index", "strings.Index", "bytes.LastIndex", "strings.LastIndex":
-							if fromParam(cl.Call.Args[0]) && hasMarker(cl.Call.Args[1]) {
+							if fromParam(cl.Call.Args[0]) && hasMarker(cl.Call.Args[1], 0) {
 								return (op == token.GEQ && k == 0) || (op == token.GTR && k == -1) || (op == token.NEQ && k == -1)
 							}
 						}
@@ -880,6 +896,15 @@ func init() {
 				}
 				if isContainment(cnd, true) {
 					if leadsToParse(b.Succs[tk]) {
+						ok = true
+					} else {
+						why = "the containment test does not lead straight to html.Parse"
+					}
+					break
+				}
+				// the same test written the other way round: `Index(src, marker) < 0` → fragment, else document
+				if isContainment(cnd, false) {
+					if leadsToParse(b.Succs[fk]) {
 						ok = true
 					} else {
 						why = "the containment test does not lead straight to html.Parse"
@@ -1129,11 +1154,25 @@ func controllingIfs(site ssa.Instruction) []Guard {
 			return fwd(s)[target]
 		}
 		r0, r1 := reachVia(b.Succs[0]), reachVia(b.Succs[1])
+		// a loop condition: the successor that does not lead on only runs the body and comes back here
+		loops := func(s *ssa.BasicBlock) bool {
+			isHeader := false
+			for _, pr := range b.Preds {
+				if b.Dominates(pr) {
+					isHeader = true
+				}
+			}
+			return isHeader && loopBlocks(b)[s]
+		}
 		switch {
 		case r0 && !r1:
-			out = append(out, Guard{ifi, true})
+			if !loops(b.Succs[1]) {
+				out = append(out, Guard{ifi, true})
+			}
 		case r1 && !r0:
-			out = append(out, Guard{ifi, false})
+			if !loops(b.Succs[0]) {
+				out = append(out, Guard{ifi, false})
+			}
 		}
 	}
 	return out
@@ -1490,11 +1529,38 @@ func init() {
 		ID: "C08.R9", Props: []string{"C08", "C10"}, Min: 2,
 		Doc: "a new template inherits the engine and a copy of the data — nothing else: in the constructor behind Template.New and Template.Load, the only things that flow from the parent into the fresh template are the engine pointer and Stack.Copy() of its scope stack; the loaded file's state (front-matter, bytes, file name, error) stays behind. A whole-struct copy makes New() on a loaded page carry that page's front-matter along, which Fill then ranks above the data passed to it",
 		Run: func(p *Prog, c *Ctx) {
-			fn := p.MustFn("(*vuego.template).new")
+			hosts, isRole := p.hostsOf("(*vuego.template).new")
+			if len(hosts) == 0 {
+				undecided("anchor function (*vuego.template).new not found, nor its former callers")
+			}
+			fn := hosts[0]
 			recv := fn.Params[0]
 			n := 0
-			for _, r := range returnsOf(fn) {
-				for _, o := range p.origins(r.Results[0], OriginOpts{}) {
+			// the fresh templates: what the constructor returns, or — when it was inlined into New and Load —
+			// every template struct allocated there
+			type resultAt struct {
+				o  ssa.Value
+				at ssa.Instruction
+			}
+			var results []resultAt
+			if isRole {
+				for _, r := range returnsOf(fn) {
+					for _, o := range p.origins(r.Results[0], OriginOpts{}) {
+						results = append(results, resultAt{o, r})
+					}
+				}
+			} else {
+				for _, h := range hosts {
+					eachInstr(h, func(in ssa.Instruction) {
+						if al, ok := in.(*ssa.Alloc); ok && al.Heap && strings.HasSuffix(typeShort(al.Type()), "vuego.template") {
+							results = append(results, resultAt{al, al})
+						}
+					})
+				}
+			}
+			for _, ra := range results {
+				{
+					o, r := ra.o, ra.at
 					al, ok := o.(*ssa.Alloc)
 					if !ok {
 						c.fail(fmt.Sprintf("new: result#%d", n+1), p.instrPos(r), "the constructor returns "+describeValue(o)+" instead of a freshly allocated template: the parent and the new template are the same object")
@@ -1518,24 +1584,51 @@ func init() {
 								n++
 								okSrc := true
 								why := ""
+								// what comes from the parent: loads of the receiver's fields (anything but the engine), the parent's
+								// stack other than through Copy(); values that do not come from the receiver (the file just loaded,
+								// parameters, constants) are the new template's own
+								fromRecv := func(v ssa.Value) bool {
+									ld, ok := v.(*ssa.UnOp)
+									if !ok || ld.Op != token.MUL {
+										return false
+									}
+									fa, ok := ld.X.(*ssa.FieldAddr)
+									if !ok {
+										return false
+									}
+									for _, o := range p.origins(fa.X, OriginOpts{}) {
+										if o == ssa.Value(recv) {
+											return true
+										}
+									}
+									return false
+								}
 								for _, so := range p.origins(st.Val, OriginOpts{}) {
 									switch y := so.(type) {
-									case *ssa.Const:
 									case *ssa.Call:
-										if calleeName(&y.Call) != "(*vuego.Stack).Copy" && calleeName(&y.Call) != "vuego.NewStack" && calleeName(&y.Call) != "vuego.NewStackWithData" {
-											okSrc, why = false, "the result of "+calleeName(&y.Call)
+										// t.stack.Copy() is the one way parent data may come along
+										if calleeName(&y.Call) == "(*vuego.Stack).Copy" {
+											continue
+										}
+										for _, a := range callArgs(&y.Call) {
+											for _, ao := range p.origins(a, OriginOpts{}) {
+												if fromRecv(ao) {
+													if f := loadedField(ao); f == nil || !fieldIs(f, "vue") {
+														okSrc, why = false, "the parent's "+describeValue(ao)+" passed to "+calleeName(&y.Call)
+													}
+												}
+											}
 										}
 									case *ssa.UnOp:
-										f := loadedField(y)
-										if f == nil || !fieldIs(f, "vue") {
-											okSrc, why = false, describeValue(y)
+										if fromRecv(y) {
+											f := loadedField(y)
+											if f == nil || !fieldIs(f, "vue") {
+												okSrc, why = false, "field "+canonFieldName(f)+" of the parent"
+												if f != nil && fieldIs(f, "stack") {
+													why = "the parent's own scope stack (shared, not copied)"
+												}
+											}
 										}
-										// the stack itself must not be shared
-										if f != nil && fieldIs(f, "stack") {
-											okSrc, why = false, "the parent's own scope stack (shared, not copied)"
-										}
-									default:
-										okSrc, why = false, describeValue(so)
 									}
 								}
 								c.check(okSrc, fmt.Sprintf("new: field %s#%d", fname, n), p.instrPos(st), "engine pointer, Stack.Copy() or a constant", "the fresh template's "+fname+" is taken from "+why+" of the parent: state of the parent's loaded file leaks into every template made from it")
@@ -2123,6 +2216,10 @@ func init() {
 					return ok && want && strings.HasSuffix(calleeName(&cl.Call), ".IsRaw")
 				})
 			}
+			// a raw Text node (code) is verbatim by definition: what is written under `IsRaw()` is not followed
+			t.StopCall = func(site ssa.CallInstruction, arg ssa.Value) bool {
+				return verbatimFn(site.Parent()) || rawGuarded(site.Block())
+			}
 			t.Sink = func(u ssa.Instruction, v ssa.Value) string {
 				if verbatimFn(u.Parent()) || rawGuarded(u.Block()) {
 					return ""
@@ -2241,7 +2338,19 @@ func init() {
 							return
 						}
 					}
-					implies := lenImplies(same, k, 0)
+					base0 := lenImplies(same, k, 0)
+					implies := func(cnd ssa.Value, want bool) bool {
+						if base0(cnd, want) {
+							return true
+						}
+						// a test of the index itself: `last := len(x) - 1; if last >= 0`
+						if op, x, y, ok := relationOnEdge(cnd, want); ok && (x == idx || sameValue(x, idx)) {
+							if m, isK := constInt(y); isK {
+								return (op == token.GEQ && m >= 0) || (op == token.GTR && m >= -1) || (op == token.NEQ && m == -1 && k == 1)
+							}
+						}
+						return false
+					}
 					// a block that grows the value (x = append(x, …)) also establishes it
 					grows := func(b *ssa.BasicBlock) bool {
 						for _, x := range b.Instrs {
